@@ -22,4 +22,8 @@ regen 7875a27 C45 400 C45-forged-block-tree.json C45.bad-share-reported-good
 regen d9e7927 C45 400 C45-truncated-share-assertion.json C45.check-failed
 regen 52bf84d C09 300 C09-stale-size-truncates.json C09.contents
 regen a952943 C09 300 C09-append-at-segment-boundary.json C09.faultfree-write-failed
+regen 3d578af C10 800 C10-servermap-premature-done.json C10.unavailable
+regen 7074209 C10 1600 C10-retrieve-duplicate-share-livelock.json C10.livelock
+regen a67e08b C12 600 C12-modify-retry-keyerror.json C12.wrong-error
+regen 94d30ff C14 600 C14-repair-discards-servermap.json C14.repair-failed
 rm -rf $S
